@@ -65,11 +65,11 @@ def main():
     thorough = rep.tier == "thorough"
     st, tr_, cmd = core.design_check(False)
     rng = random.Random(rep.seed * 811 + 8)
-    n_rand = 1200 if thorough else 200
+    n_rand = 4000 if thorough else 240
     bat = gen.Gen(rep.seed + 8, nt=20).battery(3)
     paths, rp = core.export_paths("index", 3, 4)
-    if len(paths) > (4000 if thorough else 500):
-        paths = rng.sample(paths, 4000 if thorough else 500)
+    if len(paths) > (12000 if thorough else 600):
+        paths = rng.sample(paths, 12000 if thorough else 600)
     recorded, stats = [], {"states": 0, "transitions": 0, "cmd": ""}
     verdicts = {}
     for zi, tz in enumerate(ZONES):
